@@ -36,6 +36,10 @@ def block_configs(tier):
     for r in range(1, len(keys) + 1):
         for sub in itertools.combinations(keys, r):
             out.append(('sparse', None, tuple((k, 100 + k) for k in sub)))
+    # address maps listed in an order that is not ascending (what is 'first' is not what is lowest)
+    out.append(('sparse', None, ((5, 105), (0, 100), (1, 101), (2, 102))))
+    out.append(('sparse', None, ((3, 103), (2, 102), (1, 101))))
+    out.append(('sparse', None, ((10, 110), (11, 111), (1, 101), (2, 102), (3, 103))))
     out.append(('sparse', None, ((65535, 7),)))
     out.append(('sparse', None, ((65534, 7), (65535, 8))))
     out.append(('sparse-list', None, (100, 101, 102)))
@@ -55,6 +59,15 @@ def bkey(b):
     return tuple(sorted((k, _freeze(v)) for k, v in vars(b).items()))
 
 
+def block_name(cfg, model0):
+    name = '%s/%s/%s' % (cfg[0], cfg[1], ','.join(str(k) for k in sorted(model0)))
+    if cfg[0] == 'sparse':
+        order = [k for k, _ in cfg[2]]
+        if order != sorted(order):
+            name += '/listed-' + '.'.join(map(str, order))
+    return name
+
+
 def explore_block(acc, cfg, depth):
     blk, model0 = make_block(cfg)
     lo, hi = min(model0), max(model0)
@@ -62,7 +75,7 @@ def explore_block(acc, cfg, depth):
     addrs = [a for a in range(lo - 2, hi + 3) if 0 <= a <= 65537]
     counts = list(range(1, n + 3))
     cname = 'sequential' if cfg[0] == 'seq' else 'sparse'
-    cfgname = '%s/%s/%s' % (cfg[0], cfg[1], ','.join(str(k) for k in sorted(model0)))
+    cfgname = block_name(cfg, model0)
     reps = {}
     k0 = (bkey(blk), tuple(sorted(model0.items())))
     reps[k0] = blk
@@ -472,7 +485,7 @@ def replay(w):
     if 'block' in w:
         for c in block_configs('thorough'):
             _, m0 = make_block(c)
-            name = '%s/%s/%s' % (c[0], c[1], ','.join(str(k) for k in sorted(m0)))
+            name = block_name(c, m0)
             if name == w['block']:
                 explore_block(acc, c, len(w['history']))
         vs = [v for v in acc.violations if v['witness'] == w]
